@@ -23,7 +23,7 @@ const TS_POOL: &[&str] = &[ILE, "1.2.840.10008.1.2.1", "1.2.840.10008.1.2.2", "1
 const CLASS_POOL: &[&str] = &[uids::CT_IMAGE_STORAGE, uids::MR_IMAGE_STORAGE, uids::SECONDARY_CAPTURE_IMAGE_STORAGE];
 
 struct Server {
-    _proc: Proc,
+    proc_: Proc,
     port: u16,
     asynch: bool,
     out_arg: String,   // the -o argument as given
@@ -38,9 +38,9 @@ fn start_server(root: &Path, asynch: bool, out_arg: &str) -> Server {
         if asynch { cmd.arg("--non-blocking"); }
         cmd.env("RUST_LOG", "off").stdout(std::process::Stdio::null()).stderr(std::process::Stdio::null());
         let mut p = Proc::spawn(cmd).expect("spawn dicom-storescp");
-        if wait_listening(port, &mut p, Duration::from_secs(20)) {
+        if wait_listening(port, &mut p, Duration::from_secs(300)) {
             let out_abs = root.join(out_arg).canonicalize().expect("output directory exists");
-            return Server { _proc: p, port, asynch, out_arg: out_arg.to_string(), out_abs };
+            return Server { proc_: p, port, asynch, out_arg: out_arg.to_string(), out_abs };
         }
     }
     panic!("dicom-storescp did not start");
@@ -207,7 +207,7 @@ pub fn cases(ctx: &Ctx) -> Vec<Case> {
         std::fs::create_dir_all(root.join(d)).unwrap();
     }
     let abs_out = format!("{}/b/out2/", root.display());
-    let servers = vec![
+    let mut servers = vec![
         start_server(&root, false, "out"),
         start_server(&root, true, &abs_out),
         start_server(&root, true, "c/./d/../out3"),
@@ -216,7 +216,8 @@ pub fn cases(ctx: &Ctx) -> Vec<Case> {
     let cwd = path_comps(&root);
     let mut out = vec![];
     for i in 0..ctx.n {
-        let srv = &servers[i % servers.len()];
+        let nsrv = servers.len();
+        let srv = &mut servers[i % nsrv];
         // ---- contexts
         let nctx = r.range(1, 3) as usize;
         let contexts: Vec<(u8, String, Vec<String>)> = (0..nctx)
@@ -241,7 +242,13 @@ pub fn cases(ctx: &Ctx) -> Vec<Case> {
                 (4, 0) => ("..".to_string(), "special"),
                 (5, 0) => ("1.2.3.4\0\0".to_string(), "trailing-nul"),
                 (6, 0) => ("1.2.3.6".to_string(), "empty-fragment"),
-                _ => rand_uid(&mut r, k, &root),
+                _ => {
+                    // UID texts are distinct within a case: a repeated text names the same file, the later
+                    // store replaces the earlier one (modelled, but the per-message oracle could not tell)
+                    let mut u = rand_uid(&mut r, k, &root);
+                    while msgs.iter().any(|m: &Msg| m.uid == u.0) { u = rand_uid(&mut r, k, &root); }
+                    u
+                }
             };
             buckets.push(bucket);
             let ds_class = if r.chance(1, 6) { r.pick(CLASS_POOL).to_string() } else { class.clone() };
@@ -299,7 +306,8 @@ pub fn cases(ctx: &Ctx) -> Vec<Case> {
         let mut alive = false;
         let mut accepted: Vec<(u8, String)> = vec![];
         let mut note = String::new();
-        match Wire::connect(srv.port, Duration::from_secs(10)) {
+        let mut infra = false;
+        match Wire::connect(srv.port, WAIT) {
             Err(e) => note = format!("connect failed: {e}"),
             Ok(mut w) => {
                 match associate(&mut w, &contexts, 16384) {
@@ -314,7 +322,7 @@ pub fn cases(ctx: &Ctx) -> Vec<Case> {
                         // kernel send a reset, which discards responses this side has not read yet.
                         let mut k = 0;
                         let mut dead = false;
-                        let mut on_pdu = |p: Pdu, rsps: &mut Vec<(u8, u8, u16, String, String)>| -> usize {
+                        let on_pdu = |p: Pdu, rsps: &mut Vec<(u8, u8, u16, String, String)>| -> usize {
                             let mut n = 0;
                             if let Pdu::PData { data } = p {
                                 for v in data {
@@ -369,6 +377,8 @@ pub fn cases(ctx: &Ctx) -> Vec<Case> {
                         }
                     }
                 }
+                // a read that gave up waiting says nothing about the tool (overloaded machine)
+                if w.timed_out() { infra = true; note = "gave up waiting for the tool (time limit)".into(); }
             }
         }
         // ---- observe the file system under and around the output directory
@@ -385,8 +395,11 @@ pub fn cases(ctx: &Ctx) -> Vec<Case> {
         let escaped: Vec<&PathBuf> = files.iter().filter(|f| f.parent() != Some(srv.out_abs.as_path())).collect();
         if !escaped.is_empty() {
             oracle = Oracle::Fails { class: "file-outside-output-directory".into(), detail: format!("out={} created={:?}", srv.out_abs.display(), escaped) };
-        } else if !note.is_empty() || !all_accepted {
-            oracle = Oracle::Fails { class: "harness-no-association".into(), detail: format!("{note} accepted={accepted:?}") };
+        } else if srv.proc_.exited() {
+            oracle = Oracle::Fails { class: "tool-exited".into(), detail: format!("dicom-storescp ({}) is not running any more; {note}", srv.out_arg) };
+        } else if infra || !note.is_empty() || !all_accepted {
+            // no (complete) exchange took place: nothing to judge; the note goes to the evidence
+            oracle = Oracle::NotApplicable;
         } else if !malformed && alive && rsps.len() == msgs.len() {
             // every message that was acknowledged is in exactly one file, with the right file meta group
             let mut bad = None;
@@ -424,7 +437,7 @@ pub fn cases(ctx: &Ctx) -> Vec<Case> {
         let input = c_tuple(&[c_comps(&cwd), c_bytes(srv.out_arg.as_bytes()), c_pcs, c_tbl, c_evs]);
         let c_files = c_list(observed.iter().map(|(p, ts, cl, ins, d)| c_tuple(&[c_list(path_comps(p).iter().map(|s| c_bytes(Path::new(s).as_os_str().as_bytes()))), c_str(ts), c_str(cl), c_str(ins), c_bytes(d)])));
         let c_rsps = c_list(rsps.iter().map(|(k, pc, m, c, i)| c_tuple(&[k.to_string(), pc.to_string(), m.to_string(), c_str(c), c_str(i)])));
-        let coq = if note.is_empty() { c_pair(&input, &c_tuple(&[c_files, c_rsps, c_bool(alive)])) } else { String::new() };
+        let coq = if note.is_empty() && !infra { format!("({} : StorePath.case_t)", c_pair(&input, &c_tuple(&[c_files, c_rsps, c_bool(alive)]))) } else { String::new() };
         let bucket = format!("{}{} {}", if srv.asynch { "async" } else { "sync" }, if malformed { " malformed" } else { "" }, buckets[0]);
         out.push(Case {
             coq,
